@@ -295,6 +295,16 @@ func (x *ctlExec) judge(r *sched.Result) *evid.Failure {
 			}
 			lr = Linearize(x.hist, 0, true)
 			if !lr.OK {
+				if rl := LinearizeRelaxed(x.hist, 0, true); rl.OK {
+					// The completed operations are linearizable, and linearizable with
+					// every flag clear at the end once a Fetch(false) is allowed to miss a
+					// waker whose Assert was in flight: the strict search only "passed" by
+					// ordering a Clear before that Fetch(false), which then leaves a later
+					// Assert unconsumed. It is the in-flight-Assert deviation, not a lost
+					// wake-up (the fetch is blocked rightly).
+					x.st.knownDelegated = true
+					return evid.Failf(sigInflightAssert+"tryfetch-missed-completed-assert(blocked-fetch-history)", "the history with the blocked s%d.Fetch(true) has no linearization that ends with every waker clear, but it has one if a Fetch(false) may miss a waker while another goroutine's Assert of that same waker is still in flight\nhistory:\n%s", pend.S, HistString(x.hist))
+				}
 				return evid.Failf("lost-wakeup", "every waker goroutine has finished, s%d.Fetch(true) is parked for ever, and in every linearization of the completed operations some waker is left asserted (flags %#b in the best attempt)\nhistory:\n%s", pend.S, lr.Flags, HistString(x.hist))
 			}
 			x.st.benignBlock = true
@@ -320,7 +330,7 @@ func (x *ctlExec) judge(r *sched.Result) *evid.Failure {
 func (x *ctlExec) linFailure(lr *LinResult) *evid.Failure {
 	sig := "lin:" + stuckSig(lr)
 	why := ""
-	if rl := LinearizeRelaxed(x.hist, 0); rl.OK {
+	if rl := LinearizeRelaxed(x.hist, 0, false); rl.OK {
 		sig = sigInflightAssert + stuckSig(lr)
 		x.st.knownDelegated = true
 		why = "\n(classification: the history becomes linearizable if a Fetch(false) may miss a waker while another goroutine's Assert of that same waker is still in flight)"
@@ -379,8 +389,8 @@ func runCtl(p *Prog, maxSteps int, mkChoose func(x *ctlExec) sched.Chooser) (*ev
 
 // Case is the replayable form of one controlled execution.
 type Case struct {
-	Prog     Prog  `json:"prog"`
-	Choices  []int `json:"choices"` // canonical choice indexes (sched.Replay); 0 past the end
+	Prog    Prog  `json:"prog"`
+	Choices []int `json:"choices"` // canonical choice indexes (sched.Replay); 0 past the end
 	// AtCommit overrides Choices at the steps where the fetching goroutine stands
 	// in front of its commit CAS (after it stored preparingG and re-checked the
 	// shared list): the k-th such decision takes alternative AtCommit[k] (mod the
